@@ -80,6 +80,12 @@ def groups(tier, seed):
                         gs.append(dict(st, kind='metric', level=lvl))
                         if N <= 4 or (spec == 'pure' and not heavy(fam)):
                             gs.append(dict(st, kind='evol', level=lvl))
+    # NTU metrics on the larger lattices, where second-ring sites of a cluster lie partly inside and partly outside the lattice
+    if tier == 'quick':
+        for fam, sym in (('spinless', 'U1'), ('spinless', 'Z2'), ('spin12', 'Z2')):
+            for dims in ((3, 3), (2, 4), (4, 2)):
+                for var in (0, 1):
+                    gs.append({'fam': fam, 'sym': sym, 'dims': list(dims), 'spec': 'pure', 'var': var, 'kind': 'metric', 'level': 2})
     # belief propagation on loop-free STATES: gates on the bonds of a spanning tree of a 2x3 / 3x2 / 3x3 lattice only
     for fam, sym in (('spinless', 'U1'), ('spinless', 'Z2'), ('spin12', 'Z2')):
         for dims in ((2, 3), (3, 2), (3, 3)):
